@@ -907,6 +907,11 @@ class RT(fw.Prop):
             {"kind": "hist", "root": ["module"], "muts": [
                 ["add_node", ["dfg", [], []], 0, None, None], ["add_node", ["const", ["true"]], 0, None, None],
                 ["add_node", ["dfg", [], []], 0, None, None], ["delete_node", 2], ["add_node", ["const", ["true"]], 3, None, None]]},
+            # an operation with NO value port in a direction but a recorded port count > 0 (add_node(..., num_outs=2)) and an
+            # order link: the order port is addressed at offset 0, the operation's own count -- a count of 0 is not "no count"
+            # (hand mutation X02-m2: `_num_dataflow_ports(...) or self.num_ports(...)`)
+            {"kind": "hist", "root": ["dfg", [], []], "muts": [
+                ["add_node", ["dfg", [], []], 0, None, 2], ["add_node", ["dfg", [], []], 0, None, None], ["add_order", 1, 2]]},
             {"kind": "pkg", "progs": ["poly_func", "two_consts"], "ext": True},
             {"kind": "ext", "which": "custom"},
             # a lowering HUGR inside an extension must be a wire-format document (FixedHugr, fixed c8729f5);
